@@ -429,7 +429,7 @@ def generate_and_run(ps: PureSys, rng: np.random.Generator, stats: Stats, tier: 
             if r < 0.65:
                 ad = ps.adapter
                 m = ad.env_mask(c.ts.observation) if ad.mask_mode else None
-                a = ad.policy_complete(s_np, ps.env, rng, m if (m is None or m.any()) else None)
+                a = ad.safe_policy("complete", s_np, ps.env, rng, m if (m is None or m.any()) else None)
                 if a is not None:
                     return a
             if r < 0.8:
@@ -521,7 +521,7 @@ def history_digest(adapter: Any, cfg: Dict[str, Any], seed: int, n_keys: int = 3
             a = None
             if deep:
                 try:
-                    a = adapter.policy_complete(util.to_np(s), env, rng, m if (m is None or m.any()) else None)
+                    a = adapter.safe_policy("complete", util.to_np(s), env, rng, m if (m is None or m.any()) else None)
                 except Exception:  # noqa: BLE001  (a policy that cannot cope with this state: fall back to the mask)
                     a = None
             if a is None:
